@@ -96,8 +96,7 @@ REGISTRY = {
                          'call graph over-approximated by method name']),
     'C15': dict(module='contracts.C15', level='proof',
                 native=native_sweep('c15_roundtrip.py', 'write -> read -> compare (objects with tags / tapers / transformations, sources, every load kind and attachment form, media) -> write again, on generated accepted command lines', 150, 4000),
-                undecided=['sequence-level clauses (every load written once, load numbering, transformation order) and the option classes '
-                           'without a round-trip unit (--rlc/--trap/--laplace loads, --attach-load lines, distributed loads, --geo-*) are covered by the bounded native round trip only'],
+                undecided=['load numbering (cmdline_number) and whole-model round trips (write, read, solve, write again) are covered by the bounded native round trip only; the attach-line and model-writer units are shape-bounded'],
                 trusted=['% conversions render within their classes (sign x plain/exponent); Python\'s complex() decides the literal grammar on representatives',
                          'argparse: type=complex applied to the value text; action=append keeps command-line order',
                          'field equality to printed precision: a %g-family token carries its value']),
@@ -116,7 +115,7 @@ REGISTRY = {
                          'numpy fancy indexing with an index array acts elementwise like the scalar index used in the unit']),
     'C07': dict(module='contracts.C07', level='proof',
                 native=native_sweep('c07_lin.py', 'homogeneity, superposition, order independence and printed source data on the real solver (1..4 sources incl. grounded and junction pulses)', 40, 1500),
-                undecided=['invariance of the dBi pattern under voltage scaling (vectorised far field)'],
+                undecided=['invariance of the dBi pattern under voltage scaling: a lemma over the contracts of C07 and C10 (two sources / two pulses generic step); on the vectorised code itself only natively'],
                 trusted=['np.linalg.solve(Z, b) is a function of (Z, b), linear in b (LAPACK)',
                          'measure_time decorator returns the wrapped method\'s result unchanged',
                          'call graph of E4 over-approximates calls by method name']),
